@@ -99,30 +99,6 @@ func (tw *TimerWheel[K, V]) schedule(entry *Entry[K, V]) {
 	tw.wheel[x][y].PushFront(entry)
 }
 
-// rewind moves the wheel back to now and files every scheduled entry again
-// relative to that position. It is for the one case in which the clock steps
-// back below the wheel: a clock origin adopted from a saved cache that had been
-// up for a shorter time than this one. Left where it was, the wheel would file
-// restored deadlines against a position the clock only reaches after the
-// difference has elapsed, and would not sweep anything until then.
-func (tw *TimerWheel[K, V]) rewind(now int64) {
-	var scheduled []*Entry[K, V]
-	for i := range tw.wheel {
-		for j := range tw.wheel[i] {
-			for entry := tw.wheel[i][j].Front(); entry != nil; {
-				next := entry.Next(WHEEL_LIST)
-				tw.deschedule(entry)
-				scheduled = append(scheduled, entry)
-				entry = next
-			}
-		}
-	}
-	tw.nanos = now
-	for _, entry := range scheduled {
-		tw.schedule(entry)
-	}
-}
-
 func (tw *TimerWheel[K, V]) advance(now int64, remove func(entry *Entry[K, V], reason RemoveReason)) {
 	if now == 0 {
 		now = tw.clock.NowNano()
